@@ -47,7 +47,12 @@ fn main() {
         Some(match id.as_str() {
             "C01" => props::scan::c01(&mut ctx),
             "C02" => props::scan::c02(&mut ctx),
+            "C04" => props::events::c04(&mut ctx),
+            "C14" => props::events::c14(&mut ctx),
+            "C05" => props::frame::c05(&mut ctx),
+            "C06" => props::frame::c06(&mut ctx),
             "C07" => props::scan::c07(&mut ctx),
+            "C18" => props::compose::c18(&mut ctx),
             "C19" => props::scan::c19(&mut ctx),
             _ => return None,
         })
